@@ -107,6 +107,9 @@ def run(ctx):
     _summary_interpreted(ctx, r13, repo)
     r14 = ctx.rule("C01.R14", "FRESH: _ModelConfig.__init__ interpreted for a first model, every container reachable from that configuration then altered in place (a user tweaking `model.config.modifier_settings` to describe a variant), and interpreted again: the second default-constructed configuration carries the documented default interpolation codes (normsys code4, histosys code4p) and shares no container with the first; settings passed explicitly arrive as given", "FRESH", floor=3)
     _fresh_defaults(ctx, r14, repo)
+    r15 = ctx.rule("C01.R15", "OPS: the array operations the evaluation is written against (clip, tile, sum, product, where, stack, concatenate, reshape, gather, boolean_mask, einsum, power, divide, sqrt, exp, log, abs, isfinite, outer) on all four backends, interpreted with the array library replaced by role recorders bound with the library's own signatures: each tensorlib method hands the caller's arguments to the library function of THAT operation in their own roles (mask/x/y, x/axis, lo/hi, sequence/axis ...), with the axis given and absent, each clip bound given and absent", "OPS", floor=80)
+    from . import backend_ops
+    backend_ops.check(ctx, r15)
     r11 = ctx.rule("C01.R11", "BUILD: _nominal_and_modifiers_from_spec interpreted END TO END with the real nominal builder and all seven modifier builders on a 3-channel (listed out of order) x 2-sample specification in which every modifier type occurs once or twice and one sample is absent from a channel: nominal rates and every builder tensor follow config.channels x config.samples; a cell is masked in exactly where the sample declares the modifier; undeclared cells carry the neutral data (nominal / 1 / 0); each applier receives its own type's modifiers, the configuration, its own builder data and the batch size", "BUILD", floor=9)
     _build_end_to_end(ctx, r11, reg)
 
